@@ -522,7 +522,9 @@ pub fn finish(mut rep: Report, ctx: &Ctx, known: &KnownFindings) -> i32 {
             if f.failure.sig.starts_with("HARNESS:") {
                 // model and reference decoder disagree: a harness defect, never a violation
                 println!("INCONCLUSIVE property={} harness self-check failed (replay={})", id, p);
-                status = status.max(2);
+                if status == 0 {
+                    status = 2;
+                }
             } else {
                 println!("VIOLATION property={} replay={}", id, p);
                 status = 1;
